@@ -127,11 +127,11 @@ func ValidateProxyConfigurerForClient(c v1.ProxyConfigurer) error {
 }
 
 func validateTCPProxyConfigForClient(c *v1.TCPProxyConfig) error {
-	return nil
+	return ValidatePort(c.RemotePort, "remotePort")
 }
 
 func validateUDPProxyConfigForClient(c *v1.UDPProxyConfig) error {
-	return nil
+	return ValidatePort(c.RemotePort, "remotePort")
 }
 
 func validateTCPMuxProxyConfigForClient(c *v1.TCPMuxProxyConfig) error {
